@@ -1,18 +1,19 @@
 #!/bin/bash
 # usage: tools/seedrun.sh <patch.diff> <ID> [<ID>...]   -- apply a seeded change to /repo, run the quick checks, always revert.
-# Never leaves /repo modified. Prints one line per check: SEED <patch> <ID> rc=<rc> violations=<n> keys=...
+# Never leaves the tree modified. Prints one line per check: SEED <patch> <ID> rc=<rc> violations=<n> keys=...
 PATCH="$(realpath "$1")"; shift
-if [ -n "$(git -C /repo status --porcelain --untracked-files=no)" ]; then echo "refusing: /repo has uncommitted changes"; exit 2; fi
-trap 'git -C /repo reset -q --hard HEAD >/dev/null 2>&1; git -C /verif clean -qfX replays/ >/dev/null 2>&1' EXIT   # replays written while a seed was applied are not kept   # safe: the script refuses to start on a dirty /repo
-if ! git -C /repo apply "$PATCH" 2>/dev/null; then
+REPO="${SEED_REPO:-/repo}"   # SEED_REPO=<another worktree of /repo at the same HEAD> keeps /repo itself untouched
+if [ -n "$(git -C "$REPO" status --porcelain --untracked-files=no)" ]; then echo "refusing: $REPO has uncommitted changes"; exit 2; fi
+trap 'git -C "$REPO" reset -q --hard HEAD >/dev/null 2>&1; git -C /verif clean -qfX replays/ >/dev/null 2>&1' EXIT   # replays written while a seed was applied are not kept   # safe: the script refuses to start on a dirty /repo
+if ! git -C "$REPO" apply "$PATCH" 2>/dev/null; then
   REB="$(dirname "$PATCH")/patch-rebased.diff"
-  if [ -f "$REB" ] && git -C /repo apply "$REB" 2>/dev/null; then :;
-  elif ! git -C /repo apply -3 "$PATCH" >/dev/null 2>&1; then git -C /repo reset -q --hard HEAD; echo "SEED $PATCH does-not-apply"; exit 3;
-  else git -C /repo reset -q; fi   # keep the change in the working tree only
+  if [ -f "$REB" ] && git -C "$REPO" apply "$REB" 2>/dev/null; then :;
+  elif ! git -C "$REPO" apply -3 "$PATCH" >/dev/null 2>&1; then git -C "$REPO" reset -q --hard HEAD; echo "SEED $PATCH does-not-apply"; exit 3;
+  else git -C "$REPO" reset -q; fi   # keep the change in the working tree only
 fi
 TIER="${SEED_TIER:-quick}"
 for ID in "$@"; do
-  OUT=$(cd /verif && ./check "$ID" --tier "$TIER" 2>&1 | grep -v conda)
+  OUT=$(cd /verif && VERIF_REPO="$REPO" ./check "$ID" --tier "$TIER" 2>&1 | grep -v conda)
   rc=$?
   n=$(echo "$OUT" | grep -c '^VIOLATION')
   keys=$(echo "$OUT" | grep -E "^  $ID/" | sed -E 's/^  ([^ ]+): .*/\1/' | sort -u | head -4 | tr '\n' ' ')
